@@ -37,7 +37,9 @@
 (*       that is not yet bound is an error, a branch that does not return  *)
 (*       falls through to the statement after the if.                      *)
 (*     RunFn(ft, f, vals)   run the named function on a sequence of values *)
-(*     Defined(body, env, ft) == Run(...).st = "ret"                       *)
+(*     \* the body of a function whose own scope chain is scopes (innermost first), defined in the module with globals ft
+RunIn(body, env, scopes, ft) == Run(body, env, View(scopes, ft))
+Defined(body, env, ft) == Run(...).st = "ret"                       *)
 (*     Assigned(body)  Reads(body)  BodyConsts(body)  BodyCalls(body)      *)
 (*     BodyCmpNums(body)  StmtCount(body)  HasReturn(body)  HasLoop(body)  *)
 (*     WellFormed(params, body, ft): parameters distinct, locals disjoint  *)
@@ -57,6 +59,8 @@ While(t, body)        == [k |-> "while", e |-> t, body |-> body]
 For(i, cnt, body)     == [k |-> "for", name |-> i, e |-> Num(cnt), body |-> body]
 
 Run(body, env, ft) == LET r == RunFrom(body, 1, env, ft) IN [st |-> r.st, v |-> r.v]
+\* the body of a function whose own scope chain is scopes (innermost first), defined in the module with globals ft
+RunIn(body, env, scopes, ft) == Run(body, env, View(scopes, ft))
 Defined(body, env, ft) == Run(body, env, ft).st = "ret"
 
 ArgEnv(params, vals) == [x \in SeqRange(params) |-> vals[CHOOSE j \in DOMAIN params : params[j] = x]]
